@@ -151,42 +151,48 @@ func runCheck(o *checkOpts) int {
 		}
 		sort.Slice(fis, func(i, j int) bool { return fis[i].FullName() < fis[j].FullName() })
 		for _, fi := range fis {
-			w := newWorld()
-			ex := &Exec{w: w, prog: prog, count: map[string]int{}, heapS: map[string]*Sort{}, heapGo: map[string]types.Type{}, typedKeys: map[string]bool{}, closures: map[string]*closureInfo{}, extUsed: map[string]bool{}}
-			rep := funcReport{Name: fi.FullName()}
-			func() {
-				defer func() {
-					if r := recover(); r != nil {
-						switch e := r.(type) {
-						case unsupportedErr:
-							rep.Unsupported = e.msg
-						case specFail:
-							rep.Unsupported = "contract error: " + e.msg
-						default:
-							panic(r)
+			insts, inames := typeInstances(fi)
+			for ii, inst := range insts {
+				w := newWorld()
+				ex := &Exec{w: w, prog: prog, count: map[string]int{}, heapS: map[string]*Sort{}, heapGo: map[string]types.Type{}, typedKeys: map[string]bool{}, closures: map[string]*closureInfo{}, extUsed: map[string]bool{}}
+				ex.topTsub = inst
+				ex.instName = inames[ii]
+				ex.wrap64 = fi.Spec.IntWidth64
+				rep := funcReport{Name: fi.FullName() + inames[ii]}
+				func() {
+					defer func() {
+						if r := recover(); r != nil {
+							switch e := r.(type) {
+							case unsupportedErr:
+								rep.Unsupported = e.msg
+							case specFail:
+								rep.Unsupported = "contract error: " + e.msg
+							default:
+								panic(r)
+							}
 						}
-					}
+					}()
+					ex.verifyFunc(fi)
 				}()
-				ex.verifyFunc(fi)
-			}()
-			rep.Paths = ex.nPaths
-			if rep.Unsupported != "" {
-				genFailures = append(genFailures, fi.FullName()+": "+rep.Unsupported)
-			}
-			n := 0
-			for _, ob := range ex.obls {
-				if !hasProp(ob.Props, o.prop) {
-					continue
+				rep.Paths = ex.nPaths
+				if rep.Unsupported != "" {
+					genFailures = append(genFailures, rep.Name+": "+rep.Unsupported)
 				}
-				n++
-				all = append(all, ob)
-				file := filepath.Join(vcDir, sanitizeFile(ob.Name)+".smt2")
-				items = append(items, &solveItem{o: ob, w: w, file: file})
-			}
-			rep.Obligations = n
-			reports = append(reports, rep)
-			for k := range w.assumed {
-				assumed[k] = true
+				n := 0
+				for _, ob := range ex.obls {
+					if !hasProp(ob.Props, o.prop) {
+						continue
+					}
+					n++
+					all = append(all, ob)
+					file := filepath.Join(vcDir, sanitizeFile(ob.Name)+".smt2")
+					items = append(items, &solveItem{o: ob, w: w, file: file})
+				}
+				rep.Obligations = n
+				reports = append(reports, rep)
+				for k := range w.assumed {
+					assumed[k] = true
+				}
 			}
 		}
 		// lemmas
